@@ -48,7 +48,9 @@ def gen_lines(rnd, tier):
     for i, si in enumerate(SIGS):
         for j, sc in enumerate(SIGS):
             if tier == "thorough" or (i + j) % 2 == 0:
-                L.append("verify|%s|1|0|1:M%s:T%s|0" % ("co"[(i + j // 2) % 2] if tier != "thorough" else "c", si, sc))
+                L.append("verify|%s|1|0|1:M%s:%s%s|0" % ("co"[(i + j // 2) % 2] if tier != "thorough" else "c", si, "TJ"[(i // 2 + j) % 2] if tier != "thorough" else "T", sc))
+                if tier == "thorough":
+                    L.append("verify|c|1|0|1:M%s:J%s|0" % (si, sc))
                 if tier == "thorough":
                     L.append("verify|o|1|0|1:M%s:T%s|0" % (si, sc))
     # ... and once with implementations that mark parameters positional-only (PEP 570 `/`), which changes no positional call shape
@@ -133,8 +135,8 @@ def to_model(line):
             c = "N"            # any present attribute
         if c[0] == "D":
             c = "G" + c[1:]    # the signature left once the (defaulted) self is dropped
-        if c[0] == "T":
-            c = "F" + c[1:]    # a static method: the function as it stands
+        if c[0] in "TJ":
+            c = "F" + c[1:]    # a static method (own or inherited): the function as it stands
         es.append("%s:%s:%s" % (n, d, c))
     f[3] = "1" if f[3] == "2" else f[3]
     return "|".join(f[:4] + [";".join(es)])
@@ -154,8 +156,8 @@ def count_naming(chk, line):
     for e in line.split("|")[4].split(";"):
         n, d, c = e.split(":")
         if d[0] != "M" or c[0] not in "FGD":
-            if c[0] == "T":
-                chk.count("static_method_candidates")
+            if c[0] in "TJ":
+                chk.count("static_method_candidates" if c[0] == "T" else "inherited_static_method_candidates")
             continue
         if c[-1] in "st":
             chk.count("implementations_with_positional_only_parameters")
